@@ -310,7 +310,7 @@ class C09(object):
         sig = repr(sorted((k, repr(v)) for k, v in case.items() if k not in ("prio",)))
         cell = "%s/%s/%s" % (deco, binding, case.get("receiver"))
         return {"violations": out[:3], "stats": {"events": len(B.trace), "flushes": nfl, "probes": {"cell:" + cell: 1, "body:" + body_kind: 1}},
-                "sig": sig, "nontrivial": True, "digest": sig}
+                "sig": sig, "nontrivial": True, "digest": sig + "|" + repr(sorted(results.items())) + repr([(f["kind"], f["tokens"]) for f in B.flushes])}
 
 
 PROP = C09()
